@@ -15,6 +15,12 @@
     extractable before GRPCWrap is the one extracted afterwards and on the
     other side, and embedding into a chain of plain texts round-trips; every
     non-OK status code maps back to a class (never nil).  Behaviour outside
+    Error values are wrapping trees: a context frame [FMulti] is a layer with
+    several operands (fmt.Errorf with several %w verbs, errors.Join, a custom
+    Unwrap() []error type) and carries its side operands as model values; the
+    class checks apply when the sentinel in the hole is the only class of the
+    tree and no side operand is a status error ([ctx_one_class]).  Texts and
+    objects of up to 1 MB arrive as (byte, repeat count) ([rep]).  Behaviour outside
     the statement (Is before GRPCWrap, classes without a code, message texts,
     EmbedObject panics on marker texts / second embeds, whether GRPCWrap
     returns its argument, the value of the marker) is not compared.
@@ -27,16 +33,22 @@ From Coq Require Import List NArith Bool.
 From GL Require Import model.Errors.
 Import ListNotations.
 
+(* long texts and objects are sent as (byte, repeat count): [rep b n] is n times the byte b *)
+Definition rep (b n : N) : bytes := N.iter n (cons b) [].
+
 Inductive leaf :=
 | LSentinel (c : class)
 | LPlain (t : msg)
-| LStatus (k : code) (m : msg).     (* status.Error(k, m): nil for OK *)
+| LStatus (k : code) (m : msg)      (* status.Error(k, m): nil for OK *)
+| LIsLeaf (c : class) (t : msg).    (* a value of another type whose Is method answers for the sentinel c
+                                       (syscall.ENOENT, a custom type) *)
 
 Definition leaf_err (l : leaf) : option err :=
   match l with
   | LSentinel c => Some (Sentinel c)
   | LPlain t => Some (Plain t)
   | LStatus k m => status_error k m
+  | LIsLeaf c t => Some (IsLeaf c t)
   end.
 
 (* what the harness observes of one (possibly nil) error value *)
@@ -54,7 +66,8 @@ Record case := mkCase {
   c_coded : list class;     (* the keys of errorsToCode in the tree under test (read from the source by
                                the harness on every run; the model's list when it cannot be read) *)
   c_leaf : leaf;
-  c_ctx : ctx;              (* outermost frame first *)
+  c_ctx : ctx;              (* outermost frame first; an FMulti frame (fmt.Errorf with several %w, errors.Join,
+                               a custom Unwrap() []error type) carries its side operands as model values *)
   c_built : bool;           (* false: an EmbedObject call panicked (the rest is then ignored) *)
   c_e : obs;                (* e, as built *)
   c_w : obs;                (* w = GRPCWrap(e) *)
@@ -133,6 +146,13 @@ Definition same_status (a b : option err) : bool :=
   | _, _ => false
   end.
 
+Fixpoint segs_eqb (a b : list bytes) : bool :=
+  match a, b with
+  | [], [] => true
+  | x :: a', y :: b' => bytes_eqb x y && segs_eqb a' b'
+  | _, _ => false
+  end.
+
 (* the token level agrees with the byte level on the message of e *)
 Definition levels_agree (e : option err) : bool :=
   match e with
@@ -140,9 +160,7 @@ Definition levels_agree (e : option err) : bool :=
   | Some e' =>
       let m := message e' in
       msg_wf m
-      && (if list_eq_dec (list_eq_dec N.eq_dec)
-               (split_bytes (render m)) (map render (split_marker m))
-          then true else false)
+      && segs_eqb (split_bytes (render m)) (map render (split_marker m))
   end.
 
 Definition check_exact (c : case) : bool :=
@@ -170,7 +188,28 @@ Definition plain_msg (m : msg) : bool :=
   forallb (fun t => match t with Text s => no_esc s | Marker => false | _ => true end) m.
 
 Definition plain_ctx (x : ctx) : bool :=
-  forallb (fun f => match f with FWrap t => plain_msg t | FGlue t => plain_msg t | FEmbed _ => true end) x.
+  forallb (fun f => match f with
+                    | FWrap t => plain_msg t
+                    | FGlue t => plain_msg t
+                    | FEmbed _ => true
+                    | FMulti t0 b t a => plain_msg (t0 ++ ops_msg b) && plain_msg (t ++ ops_msg a)
+                    end) x.
+
+(* exactly one class per tree: every side operand of every layer is free of
+   status errors and the only class errors.Is can find in it is cl itself
+   (two different classes in one tree make the result of GRPCStatusCode
+   depend on Go's map iteration order: outside the statement) *)
+Definition side_one_class (cl : class) (s : err) : bool :=
+  match inner_status s with
+  | None => forallb (class_eqb cl) (classes_of s)
+  | Some _ => false
+  end.
+
+Definition ctx_one_class (cl : class) (x : ctx) : bool :=
+  forallb (fun f => match f with
+                    | FMulti _ b _ a => forallb (fun p => side_one_class cl (fst p)) (b ++ a)
+                    | _ => true
+                    end) x.
 
 (* indistinguishable by class, code and extracted object *)
 Definition obs_core_eqb (a b : obs) : bool :=
@@ -184,6 +223,7 @@ Definition check_property (c : case) : bool :=
   match c_leaf c with
   | LSentinel cl =>
       if negb (existsb (class_eqb cl) (c_coded c)) then true   (* a class without a code: outside the statement *)
+      else if negb (ctx_one_class cl (c_ctx c)) then true      (* a second class or a status error in the tree: outside *)
       else
           if c_built c then
             (* the class, and no other class, after GRPCWrap and on the other side *)
@@ -211,6 +251,7 @@ Definition check_property (c : case) : bool :=
       (* every non-OK code maps back to a class, never to nil *)
       if c_built c && negb (code_eqb k OK) then is_some_class (o_from (c_e c)) else true
   | LPlain _ => true
+  | LIsLeaf _ _ => true     (* not a chain around the sentinel itself: compared in the exact mode only *)
   end.
 
 Definition check_case (c : case) : bool :=
